@@ -28,6 +28,6 @@ m = dict(version=1, setup_cmd=SETUP,
                   kind_free_text="repository-specific static analyser over go/packages + go/ssa (x/tools v0.29.0): constant-table extraction, abstract interpretation (roles/nilness/error typestate), linear bounds entailment, effect/taint, slice ownership, provenance; nothing under /repo is executed")],
     checks=[CHECKS[k] for k in sorted(CHECKS)],
     not_applicable=[dict(property_id=k, reason=NA[k]) for k in sorted(NA)],
-    notes="fix: commits in /repo: e355e69 ed82b21 f738bc3 ec0bfda 51dd8db adde3f9 (see known_findings.json, DESIGN.md section 8). Known findings: T2 MPL-1.0/MPL-1.1 (C11, C02).")
+    notes="fix: commits in /repo: e355e69 ed82b21 f738bc3 ec0bfda 51dd8db adde3f9 632fc87 (see known_findings.json, DESIGN.md sections 8 and 11.3). Known findings: T2 MPL-1.0/MPL-1.1 (C11, C02); C1 expandAnd product of two recursive expansions (C14). Known imprecision (behaviour-preserving refactorings on which a check still alarms): controls/known_imprecision.tsv.")
 json.dump(m, open(os.path.join(V, "MANIFEST.json"), "w"), indent=1)
 print("checks:", sorted(CHECKS), "n/a:", sorted(NA))
